@@ -70,22 +70,49 @@ mod __verif_date_back {
     }
     #[kani::proof]
     #[kani::stub(chrono::NaiveDateTime::parse_from_str, stub_parse)]
-    fn k_serial_to_date_a() { serial_range(61, 80000); }
+    fn k_serial_to_date_01() { serial_range(61, 80000); }
     #[kani::proof]
     #[kani::stub(chrono::NaiveDateTime::parse_from_str, stub_parse)]
-    fn k_serial_to_date_b() { serial_range(80001, 700000); }
+    fn k_serial_to_date_02() { serial_range(80001, 285604); }
     #[kani::proof]
     #[kani::stub(chrono::NaiveDateTime::parse_from_str, stub_parse)]
-    fn k_serial_to_date_c() { serial_range(700001, 1260000); }
+    fn k_serial_to_date_03() { serial_range(285605, 491209); }
     #[kani::proof]
     #[kani::stub(chrono::NaiveDateTime::parse_from_str, stub_parse)]
-    fn k_serial_to_date_d() { serial_range(1260001, 1820000); }
+    fn k_serial_to_date_04() { serial_range(491210, 696813); }
     #[kani::proof]
     #[kani::stub(chrono::NaiveDateTime::parse_from_str, stub_parse)]
-    fn k_serial_to_date_e() { serial_range(1820001, 2380000); }
+    fn k_serial_to_date_05() { serial_range(696814, 902418); }
     #[kani::proof]
     #[kani::stub(chrono::NaiveDateTime::parse_from_str, stub_parse)]
-    fn k_serial_to_date_f() { serial_range(2380001, 2958465); }
+    fn k_serial_to_date_06() { serial_range(902419, 1108023); }
+    #[kani::proof]
+    #[kani::stub(chrono::NaiveDateTime::parse_from_str, stub_parse)]
+    fn k_serial_to_date_07() { serial_range(1108024, 1313627); }
+    #[kani::proof]
+    #[kani::stub(chrono::NaiveDateTime::parse_from_str, stub_parse)]
+    fn k_serial_to_date_08() { serial_range(1313628, 1519232); }
+    #[kani::proof]
+    #[kani::stub(chrono::NaiveDateTime::parse_from_str, stub_parse)]
+    fn k_serial_to_date_09() { serial_range(1519233, 1724837); }
+    #[kani::proof]
+    #[kani::stub(chrono::NaiveDateTime::parse_from_str, stub_parse)]
+    fn k_serial_to_date_10() { serial_range(1724838, 1930441); }
+    #[kani::proof]
+    #[kani::stub(chrono::NaiveDateTime::parse_from_str, stub_parse)]
+    fn k_serial_to_date_11() { serial_range(1930442, 2136046); }
+    #[kani::proof]
+    #[kani::stub(chrono::NaiveDateTime::parse_from_str, stub_parse)]
+    fn k_serial_to_date_12() { serial_range(2136047, 2341651); }
+    #[kani::proof]
+    #[kani::stub(chrono::NaiveDateTime::parse_from_str, stub_parse)]
+    fn k_serial_to_date_13() { serial_range(2341652, 2547255); }
+    #[kani::proof]
+    #[kani::stub(chrono::NaiveDateTime::parse_from_str, stub_parse)]
+    fn k_serial_to_date_14() { serial_range(2547256, 2752860); }
+    #[kani::proof]
+    #[kani::stub(chrono::NaiveDateTime::parse_from_str, stub_parse)]
+    fn k_serial_to_date_15() { serial_range(2752861, 2958465); }
     // serials 1..=59 (1900-01-01 .. 1900-02-28, before the phantom leap day): the date is 1899-12-31 + n days
     #[kani::proof]
     #[kani::stub(chrono::NaiveDateTime::parse_from_str, stub_parse)]
